@@ -256,6 +256,7 @@ void vf_run_case(vf::Ctx& ctx, long idx)
         // buckling mode: a singular K_G (zero / rank one) gives the pencil K x = lambda K_G x eigenvalues at infinity - outside the documented domain
         if (f == 15 && (extra == 1 || extra == 4)) extra = 5;
         make_extra(r, d, extra);
+        ctx.set_where(FAMILY[f]);
         with_family<T>(d, [&](auto fac) { run_hostile(ctx, fac, "", HOSTILE_EXTRA[extra]); });
         return;
     }
@@ -272,11 +273,13 @@ void vf_run_case(vf::Ctx& ctx, long idx)
         d.nev = 1 + (int) ((idx / (ncvmax - lo + 1)) % std::max(1, d.ncv - (ZOO_GROUP == 0 ? 1 : 2)));
         d.n = d.ncv + (int) r.range(0, 2);
         d.classname = "small-scope";
+        ctx.set_where(std::string("small-scope/") + FAMILY[d.family]);
         d.A = (ZOO_GROUP == 0 ? vg::sym_matrix(r, d.n, 0, 1.0) : vg::gen_matrix(r, d.n, 0, 1.0)).cast<T>();
         d.As = d.A.sparseView();
         with_family<T>(d, [&](auto fac) { if constexpr (decltype(fac)::family == 0 || decltype(fac)::family == 5) run_smallscope(ctx, fac, idx / 7); });
 #endif
         return;
     }
+    ctx.set_where("PartialSVDSolver");
     run_svd(ctx);
 }
